@@ -247,6 +247,11 @@ func runNet(c *vu.Case) {
 			if err == nil {
 				res = replyID(resp)
 			}
+			// every `select` between "go on" and "the context has ended" is a coin flip: the call is cancelled at some point,
+			// or wins them all and comes back with the reply to its own request
+			if res == "canceled" || res == fmt.Sprint(id) {
+				res = "canceled-or-own"
+			}
 			w.mu.Lock()
 			c.In[i] = fmt.Sprintf("reqpre p=%d id=%d opened=%d live=%d", p, id, w.opened-before, w.liveCount(p))
 			out = fmt.Sprintf("res=%s opened=%d live=%d", res, w.opened-before, w.liveCount(p))
